@@ -331,7 +331,7 @@ META = {
     "explanation": "Path provenance over the MIR of s3s-fs: every file-system effect (tokio::fs / std::fs / probing Path methods) takes a path whose "
                    "backward slice ends in the confinement function family (functions whose Ok value is the Ok outcome of absolutize_virtually "
                    "against the root or a confined directory), the root itself, a directory entry of a confined read_dir, or the FileWriter; "
-                   "object paths must be confined to their bucket directory; names placed in the root come from sanitised values.",
+                   "object paths must be confined to their bucket directory; names placed in the root come from sanitised values. Also: one path, one address - a (bucket, key) path is built from the request's own pair or from the copy source's, never mixed.",
     "not_decided": ["symlink behaviour", "library contract of absolutize_virtually", "collision-freeness of the base64 bookkeeping names"],
     "assumptions": ["rustc nightly MIR construction", "path_absolutize::absolutize_virtually returns Err when the result would leave the virtual root"],
 }
